@@ -606,6 +606,7 @@ def run(tier: str, only=None) -> core.Result:
     states = sorted(k[3:] for k in cnt if k.startswith("st:"))
     transitions = [k for k in cnt if k.startswith("tr:")]
     cov = res.coverage
+    cov["samples"] = samples  # chosen by position in the enumeration, so identical from run to run
     states = sorted(set(states) | {"None"})  # the initial state: no version negotiated
     cov["states"] = len(states)
     cov["canonical_states"] = states
